@@ -10,8 +10,8 @@
   program, bindings made by pass 1 are never changed afterwards, hence `label_address`: every label of a statement maps,
   in the final symbol table, to the location counter pass 2 has when it reaches that statement = block start + words
   emitted so far.
-  Whole program (Lemmas/Image.lean, `assembled_image`): for a program made of `.orig … .end` blocks (with `.external`
-  declarations between them) that assembles, the object file's block map is sorted, contains every block with a non-empty
+  Whole program (Lemmas/Image.lean, Lemmas/Structure.lean; `assembled_image_any`): any program that assembles is a
+  sequence of closed, non-nested `.orig … .end` blocks with only `.external` declarations outside them, the object file's block map is sorted, contains every block with a non-empty
   body under its `.orig` address holding exactly the words of its statements in order, and contains nothing else — the
   "no other address is defined" clause; `body_words_layout` places each statement's words at block start + sizes before it.
   Not one theorem: that `t` is *the* table in which each label has its statement's address is `label_maps_to_statement_address`
@@ -20,6 +20,7 @@
 import Lc3V.Lemmas.C01Core
 import Lc3V.Lemmas.TwoPass
 import Lc3V.Lemmas.Image
+import Lc3V.Lemmas.Structure
 namespace Lc3V.C01
 open Lc3V
 
@@ -31,18 +32,20 @@ theorem label_maps_to_statement_address (pre post : List Stmt) (s : Stmt) (src :
     ∃ lc b, p2.current = some (lc, b) ∧ t.lookupLabel l.name = some lc ∧ lc = b.start + BitVec.ofNat 16 b.words.length :=
   label_address pre post s src t l p2 hl h1 h2 hstr
 
-/-- **the assembled image** (whole program).  Let the program be a sequence of blocks — each `.orig a`, a body without
-    `.orig`/`.end`, `.end`, possibly preceded by `.external` declarations — followed by `.external` declarations.  If it
+/-- **the assembled image** (whole program, structure given).  Let the program be a sequence of blocks — each `.orig a`, a
+    body without `.orig`/`.end`, `.end`, possibly preceded by other statements — followed by further statements.  If it
     assembles, then with `t` the symbol table of pass 1:
+    * the statements outside the blocks are all `.external` declarations;
     * the object file's block map is sorted by start address;
     * every block of the source with a non-empty body is in it, keyed by its `.orig` address, and holds exactly `bodyWords`:
       the words of its statements in order (`stmtWords`: one encoded word per instruction with label operands resolved
       against the address of the following word, the directive's words otherwise — `body_words_layout`);
     * nothing else is in it (no other address is defined; blocks with empty bodies define nothing). -/
 theorem assembled_image (blks : List Blk) (tail : List Stmt) (src : Option (List Char)) (obj : ObjFile)
-    (hwf : ∀ b ∈ blks, b.WF) (ht : ∀ s ∈ tail, isExternal s.nucleus = true)
+    (hwf : ∀ b ∈ blks, b.WF) (ht : ∀ s ∈ tail, isOrigEnd s.nucleus = false)
     (h : assemble (blks.flatMap Blk.stmts ++ tail) src = .ok obj) :
     ∃ t, pass1 (blks.flatMap Blk.stmts ++ tail) src = .ok t ∧
+      ((∀ b ∈ blks, ∀ s ∈ b.gap, isExternal s.nucleus = true) ∧ ∀ s ∈ tail, isExternal s.nucleus = true) ∧
       obj.blocks.Pairwise (fun x y => x.1 < y.1) ∧
       (∀ b ∈ blks, ∃ ws, bodyWords t b.a b.body = .ok ws ∧ (ws ≠ [] → (b.a.toNat, ws) ∈ obj.blocks)) ∧
       (∀ e ∈ obj.blocks, ∃ b ∈ blks, ∃ ws, bodyWords t b.a b.body = .ok ws ∧ ws ≠ [] ∧ e = (b.a.toNat, ws)) := by
@@ -58,8 +61,8 @@ theorem assembled_image (blks : List Blk) (tail : List Stmt) (src : Option (List
     | ok st =>
       rw [h2] at h
       cases h
-      obtain ⟨_, r2, _, r4, r5⟩ := pass2_image_gen t blks [] tail st hwf ht ⟨List.Pairwise.nil, fun x hx => by cases hx⟩ h2
-      refine ⟨t, rfl, ?_, fun b hb => ?_, fun e he => ?_⟩
+      obtain ⟨_, r2, _, rext, r4, r5⟩ := pass2_image_gen t blks [] tail st hwf ht ⟨List.Pairwise.nil, fun x hx => by cases hx⟩ h2
+      refine ⟨t, rfl, rext, ?_, fun b hb => ?_, fun e he => ?_⟩
       · exact List.Pairwise.map _ (fun x y hxy => hxy) r2.1
       · obtain ⟨ws, hw, hm⟩ := r4 b hb
         exact ⟨ws, hw, fun hne => List.mem_map.mpr ⟨_, hm hne, rfl⟩⟩
@@ -67,6 +70,28 @@ theorem assembled_image (blks : List Blk) (tail : List Stmt) (src : Option (List
         rcases r5 x hx with hx | ⟨b, hb, ws, hw, hne, rfl⟩
         · cases hx
         · exact ⟨b, hb, ws, hw, hne, rfl⟩
+
+/-- **the assembled image of any program that assembles**: the program necessarily is a sequence of closed, non-nested
+    `.orig … .end` blocks with only `.external` declarations outside them, and the object file's block map is exactly the
+    non-empty blocks with the words of their statements (as in `assembled_image`) -/
+theorem assembled_image_any (stmts : List Stmt) (src : Option (List Char)) (obj : ObjFile) (h : assemble stmts src = .ok obj) :
+    ∃ (blks : List Blk) (tail : List Stmt) (t : SymTab), stmts = blks.flatMap Blk.stmts ++ tail ∧ (∀ b ∈ blks, b.WF) ∧
+      pass1 stmts src = .ok t ∧
+      ((∀ b ∈ blks, ∀ s ∈ b.gap, isExternal s.nucleus = true) ∧ ∀ s ∈ tail, isExternal s.nucleus = true) ∧
+      obj.blocks.Pairwise (fun x y => x.1 < y.1) ∧
+      (∀ b ∈ blks, ∃ ws, bodyWords t b.a b.body = .ok ws ∧ (ws ≠ [] → (b.a.toNat, ws) ∈ obj.blocks)) ∧
+      (∀ e ∈ obj.blocks, ∃ b ∈ blks, ∃ ws, bodyWords t b.a b.body = .ok ws ∧ ws ≠ [] ∧ e = (b.a.toNat, ws)) := by
+  have h0 := h
+  unfold assemble at h0
+  cases h1 : pass1 stmts src with
+  | error e => rw [h1] at h0; cases h0
+  | ok t =>
+    obtain ⟨blks, tail, e1, e2, e3⟩ := pass1_structure stmts src t h1
+    subst e1
+    obtain ⟨t', ht', r1, r2, r3, r4⟩ := assembled_image blks tail src obj (fun b hb => (e2 b hb).1) (fun x hx => (e3 x hx).1) h
+    rw [h1] at ht'
+    cases ht'
+    exact ⟨blks, tail, t, rfl, (fun b hb => (e2 b hb).1), rfl, r1, r2, r3, r4⟩
 
 /-- where each statement's words sit inside its block: at block start + the sizes of the statements before it -/
 theorem body_words_layout (t : SymTab) (pre : List Stmt) (s : Stmt) (post : List Stmt) (a : W) (ws : List (Option W))
@@ -94,7 +119,7 @@ def obligations : List Lean.Name :=
   [``alias_expansion, ``signExtend_setWidth_of_fits, ``label_operand, ``directive_words, ``utf8Words_length,
    ``directive_words_length, ``lcInv_step, ``lcInv_fold, ``lcInv_init, ``addLabel_spec, ``addLabel_conflict,
    ``label_maps_to_statement_address, ``Lc3V.inStep_fold, ``Lc3V.pass1Step_lc, ``Lc3V.pass2Step_lc, ``Lc3V.pass1Step_labels,
-   ``Lc3V.pass1_fold_keeps, ``assembled_image, ``body_words_layout, ``stmt_words_instr, ``stmt_words_directive,
+   ``Lc3V.pass1_fold_keeps, ``assembled_image, ``assembled_image_any, ``Lc3V.pass1_structure, ``body_words_layout, ``stmt_words_instr, ``stmt_words_directive,
    ``Lc3V.pass2_image_gen, ``Lc3V.fresh_of_no_overlap]
 
 
